@@ -576,3 +576,75 @@ pub fn write_package(dir: &Path, name: &str, kind_src: &str, with_std: bool) -> 
     std::fs::write(dir.join("src/main.sw"), kind_src)?;
     Ok(())
 }
+
+// ---------------------------------------------------------------------------------------------
+// Running a script's `main` the way the e2e harness does (`Interpreter::transact`)
+
+#[derive(Clone, Debug, PartialEq, Eq, serde::Serialize, serde::Deserialize)]
+pub enum ScriptOutcome {
+    Return(u64),
+    ReturnData(Vec<u8>),
+    Revert(u64),
+}
+
+#[derive(Clone, Debug, PartialEq, Eq, serde::Serialize, serde::Deserialize)]
+pub struct ScriptRun {
+    pub outcome: ScriptOutcome,
+    pub logs: Vec<LogRec>,
+}
+
+pub fn run_script(bytecode: &[u8], script_data: Vec<u8>) -> Result<ScriptRun> {
+    use fuel_tx::consensus_parameters::ConsensusParametersV1;
+    use fuel_tx::{ConsensusParameters, ScriptParameters, TransactionBuilder, TxParameters};
+    use fuel_vm::checked_transaction::builder::TransactionBuilderExt;
+    use fuel_vm::interpreter::{Interpreter, MemoryInstance};
+    use fuel_vm::prelude::SecretKey;
+    use fuel_vm::state::ProgramState;
+    use fuel_vm::storage::MemoryStorage;
+    use fuel_tx::{Chargeable, Finalizable};
+    use rand::{Rng, SeedableRng};
+    let storage = MemoryStorage::default();
+    let rng = &mut rand::rngs::StdRng::seed_from_u64(2322u64);
+    let block_height = (u32::MAX >> 1).into();
+    let max_size = 64 * 1024 * 1024;
+    let script_params = ScriptParameters::DEFAULT
+        .with_max_script_length(max_size)
+        .with_max_script_data_length(max_size);
+    let tx_params = TxParameters::DEFAULT.with_max_size(max_size);
+    let params = ConsensusParameters::V1(ConsensusParametersV1 {
+        script_params,
+        tx_params,
+        ..Default::default()
+    });
+    let mut tb = TransactionBuilder::script(bytecode.to_vec(), script_data);
+    tb.with_params(params)
+        .add_unsigned_coin_input(SecretKey::random(rng), rng.r#gen(), 1, Default::default(), rng.r#gen())
+        .maturity(1.into());
+    let consensus_params = tb.get_params().clone();
+    let params = ConsensusParameters::default();
+    let tmp_tx = tb.clone().finalize();
+    let max_gas = tmp_tx.max_gas(consensus_params.gas_costs(), consensus_params.fee_params()) + 1;
+    tb.script_gas_limit(consensus_params.tx_params().max_gas_per_tx() - max_gas);
+    let tx = tb
+        .finalize_checked(block_height)
+        .into_ready(0, params.gas_costs(), params.fee_params(), None)
+        .map_err(|e| anyhow!("{e:?}"))?;
+    let mut i: Interpreter<_, _, _, forc_test::ecal::EcalSyscallHandler> =
+        Interpreter::with_storage(MemoryInstance::new(), storage, Default::default());
+    let transition = i.transact(tx).map_err(|e| anyhow!("{e:?}"))?;
+    let receipts = transition.receipts().to_vec();
+    let outcome = match *transition.state() {
+        ProgramState::Return(v) => ScriptOutcome::Return(v),
+        ProgramState::ReturnData(digest) => {
+            let data = receipts
+                .iter()
+                .find(|r| r.digest() == Some(&digest))
+                .and_then(|r| r.data().map(|d| d.to_vec()))
+                .unwrap_or_default();
+            ScriptOutcome::ReturnData(data)
+        }
+        ProgramState::Revert(v) => ScriptOutcome::Revert(v),
+        other => bail!("suspended state {other:?}"),
+    };
+    Ok(ScriptRun { outcome, logs: logs_of(&receipts) })
+}
